@@ -45,6 +45,7 @@ type Frame struct {
 	prefix  string
 	depth   int
 	vals    map[ssa.Value]Val
+	sliceSnap map[ssa.Value]sliceSnapshot // slices over a snapshot of an array field: copy-out after calls
 	out     map[*ssa.BasicBlock]*State
 	edgeC   map[*ssa.BasicBlock][2]string // branch conditions of the terminating If
 	loops   map[*ssa.BasicBlock]*Loop
@@ -1262,8 +1263,13 @@ func (f *Frame) execSlice(in *ssa.Slice, st *State) {
 			srt := e.sortOf(at.Elem())
 			h := e.getHeapA(st, srt)
 			st.heapA[srt] = e.define("ha", e.heapASort(srt), fmt.Sprintf("(store %s %s %s)", h, arr, e.load(st, l)))
-			e.note("array field sliced in %s: the slice views a snapshot copy (writes through the slice are not reflected in the field)", funcKey(f.fn))
+			e.note("array field sliced in %s: the slice views a snapshot copy; what a callee that receives the slice leaves in it is copied back into the field (direct stores through the slice in this function are not)", funcKey(f.fn))
 			f.defval(in, fmt.Sprintf("(mk-slice %s %s (- %s %s) (- %s %s))", arr, lo, hi, lo, n, lo))
+			if f.sliceSnap == nil {
+				f.sliceSnap = map[ssa.Value]sliceSnapshot{}
+			}
+			lc := *l
+			f.sliceSnap[in] = sliceSnapshot{arr: arr, sort: srt, loc: &lc}
 			return
 		}
 		e.note("slice of array behind a pointer in %s: havocked", f.fn.Name())
